@@ -27,7 +27,9 @@ const (
 	Limbo              // outstanding or acknowledged: the implementation was free to choose
 )
 
-func (s State) String() string { return [...]string{"outstanding", "acked", "deadlettered", "limbo"}[s] }
+func (s State) String() string {
+	return [...]string{"outstanding", "acked", "deadlettered", "limbo"}[s]
+}
 
 type Topic struct {
 	Gen  int
@@ -72,6 +74,9 @@ type Del struct {
 	Seek      bool // a seek changed this delivery's state
 	PrunedMay bool // the completed row may have been removed by a prune job
 	Fuzzy     bool // lease / expiry no longer known precisely
+	// ExpUnknown: delivered after the retention end the model knew of (a seek
+	// the model could not follow gave it a fresh retention)
+	ExpUnknown bool
 }
 
 type Snap struct {
@@ -241,7 +246,7 @@ type cls struct {
 }
 
 func (m *Model) expiry(d *Del, now time.Time) int { // -1 alive, 0 uncertain, +1 expired
-	if d.Fuzzy {
+	if d.Fuzzy || d.ExpUnknown {
 		return 0
 	}
 	if !now.Before(d.Exp.Add(Eps)) {
@@ -519,6 +524,9 @@ func (m *Model) forward(d *Del, now time.Time) []*Del {
 type PullResult struct {
 	Returned  []*Del
 	Truncated bool
+	// Det: the model leaves the implementation no freedom in this pull (no
+	// 'may' candidates, not truncated): its result is a function of the history
+	Det bool
 }
 
 func jsonEqual(a, b []byte) bool {
@@ -591,6 +599,12 @@ func (m *Model) Pull(name string, max int, now time.Time, resp []*pubsubpb.Recei
 		}
 	}
 	res.Truncated = cands > max
+	res.Det = !res.Truncated
+	for _, c := range cl {
+		if c.c == clMay || c.c == clDLMaybe {
+			res.Det = false
+		}
+	}
 	if len(resp) > max {
 		bad("C02", "too-many", "returned %d messages", len(resp))
 	}
@@ -753,7 +767,11 @@ func (m *Model) Pull(name string, max int, now time.Time, resp []*pubsubpb.Recei
 		if !got[d] {
 			continue
 		}
-		if d.State == Limbo {
+		if d.State == Limbo || d.Fuzzy {
+			// the model did not know this delivery's state; being delivered shows
+			// it is outstanding and alive now, its attempt count comes from the
+			// response, and if the model's retention end cannot be right the true
+			// one stays unknown
 			d.State, d.Fuzzy = Out, false
 			d.N = 0
 			for _, rm := range resp {
@@ -761,17 +779,8 @@ func (m *Model) Pull(name string, max int, now time.Time, resp []*pubsubpb.Recei
 					d.N = int(rm.DeliveryAttempt) - 1
 				}
 			}
-		}
-		if d.Fuzzy {
-			for _, rm := range resp {
-				if rm.AckId == d.AckID {
-					d.N = int(rm.DeliveryAttempt) - 1
-				}
-			}
-			d.Fuzzy = false
-			if d.Exp.Before(now) {
-				d.Exp = now // unknown; conservatively "uncertain" from here on
-				d.Fuzzy = true
+			if !now.Before(d.Exp.Add(-Eps)) {
+				d.ExpUnknown = true
 			}
 		}
 		d.N++
@@ -964,7 +973,9 @@ func (m *Model) pubCmp(d *Del, t time.Time) int { // -1: pub<=t, +1: pub>t, 0 un
 }
 
 func (m *Model) revive(d *Del, now time.Time) {
+	d.ExpUnknown = false
 	if d.PrunedMay {
+		m.C["limbo-by-prune-then-rewind"]++
 		d.State, d.Fuzzy = Limbo, true
 		return
 	}
@@ -983,6 +994,7 @@ func (m *Model) SeekTime(name string, t, now time.Time) {
 		if e == 1 {
 			continue
 		}
+		d.Seek = true // from here on this delivery's state was decided by a seek
 		if e == 0 {
 			if d.State != Acked || !d.PrunedMay {
 				d.State, d.Fuzzy = Limbo, true
@@ -1042,6 +1054,7 @@ func (m *Model) ExpectSeekSnap(sub, snap string) codes.Code {
 func (m *Model) SeekSnap(sub, snap string, now time.Time) {
 	s, sn := m.LiveSub(sub), m.Snaps[snap]
 	for _, d := range s.Dels {
+		d.Seek = true
 		e := m.expiry(d, now)
 		if e != -1 || sn.Fuzz[d.Msg.Idx] || d.Origin != nil {
 			// expiry x snapshot seek and forwarded deliveries: outside what the
